@@ -158,7 +158,7 @@ def resolve_source(
     if source.find("://") > -1 and not source.startswith("file://"):
         yield source
     else:
-        if source.startswith("file://"):
+        if source.startswith("file:"):
             source = url2pathname(urlparse(source).path)
 
         path = Path(source).resolve()
